@@ -4,7 +4,7 @@
 //   run <dir> <crc> <fresh> <killat> <tracefx> <op>...   child runs the history; trace in <dir>/trace
 //   rec <dir> <crc> <killat>                             child reopens <dir>/db (recovery), dumps, _exit
 //   wal <dir> <crc>                                      child calls iwal_create only (recovery step alone)
-// ops: p<db>:<keyhex>:<vlen>:<seed>  d<db>:<keyhex>  s (iwkv_sync)  c (checkpoint)  n<db> (create db)
+// ops: p<db>:<keyhex>:<vlen>:<seed>  d<db>:<keyhex>  s (iwkv_sync)  c (checkpoint)  n<db> (create db)  q (close, exit)
 //      b (online backup into <dir>/bkp)
 // Effects are numbered through the iwverif_fx hook when /repo has it (IOWOW_VERIF_FX_HOOK), otherwise
 // through -Wl,--wrap of the libc calls (HWAL_WRAP), otherwise not at all (op-boundary kills only).
@@ -323,6 +323,12 @@ static void exec_op(int i) {
   } else if (op[0] == 'n') {
     struct iwdb *db = 0;
     rc = iwkv_db(kv, (uint32_t) (op[1] - '0'), 0, &db); dumpit = 1;
+  } else if (op[0] == 'q') {
+    // clean close (checkpoint on close), then leave
+    rc = iwkv_close(&g_kv);
+    tr("E %d %s %lld %lld\n", i, rcs(rc), fsize(g_walpath), fsize(g_dbpath));
+    tr("N %lld\n", g_fx_n);
+    _exit(0);
   } else if (op[0] == 'b' || op[0] == 'B') {
     // b<at>:<n>  online backup into <dir>/bkp, the next n operations run at the at-th write to the target
     char bp[700]; uint64_t ts = 0;
@@ -384,7 +390,7 @@ static void bkp_write_seen(void) {
 //        4 = snapshot the files after open (db0, wal0) and trace every listener call
 static int child_run(const char *dir, int crc, int fresh, long long killat, int flags, char **ops, int nops) {
   char tp[700];
-  snprintf(tp, sizeof(tp), "%s/trace", dir);
+  snprintf(tp, sizeof(tp), fresh ? "%s/trace" : "%s/trace2", dir); // a continuation session keeps the first trace
   g_trace_fd = open(tp, O_WRONLY | O_CREAT | O_TRUNC | O_APPEND, 0600);
   struct iwkv *kv = 0;
   struct iwkv_opts o = mkopts(crc, fresh);
@@ -419,7 +425,7 @@ static void child_rec(const char *dir, int crc, long long killat, int wfd) {
   iwrc rc = iwkv_open(&o, &kv);
   g_fx_on = 0;
   char hd[128];
-  int n = snprintf(hd, sizeof(hd), "n=%lld rc=%s dump=", g_fx_n, rcs(rc));
+  int n = snprintf(hd, sizeof(hd), "n=%lld rc=%s walsz=%lld dump=", g_fx_n, rcs(rc), fsize(g_walpath));
   ssize_t r = RAW_WRITE(wfd, hd, n);
   if (!rc) {
     size_t dl = dump(kv, g_dump, sizeof(g_dump));
